@@ -113,6 +113,32 @@ def l1_l2(ctx, F):
                        "exact root entry, which can already be above the limit (`go depth 5` then `go depth 3` on the same position), so the "
                        "test never fires and the search runs on until stopped",
                   expected="limit <= depth", found=hir.fmt(b, 80))
+    # L1d: the limit test is reached by every completed iteration: no `continue` of the driver loop (an unlabelled one outside any
+    # inner loop, or one labelled with the driver loop's label) lies before the test - it would start the next, deeper iteration
+    # without asking whether the requested depth has been reached
+    def _label_of(loop_match):
+        for n_, anc_ in hir.walk(body):
+            if n_ is loop_match:
+                for a_ in reversed(anc_):
+                    if a_.get("k") == "Loop":
+                        return a_.get("label")
+        return None
+    lab = _label_of(node)
+    first_test = min((hir.order_key(n) for _, _, n in conds), default=None)
+    skips = []
+    if first_test is not None:
+        for n_, anc_ in hir.walk(node):
+            if n_.get("k") == "Continue" and not n_.get("mac"):
+                loops_ = [a_ for a_ in anc_ if a_.get("k") == "Loop"]       # the first one is the `for` loop itself (desugared)
+                inner = loops_[1:]
+                lab = loops_[0].get("label") if loops_ else lab
+                mine = (n_.get("label") is None and not inner) or (n_.get("label") is not None and n_.get("label") == lab)
+                if mine and hir.order_key(n_) < first_test:
+                    skips.append(hir.line(n_))
+    ctx.check("C08.L1", "limit-test-reached-by-every-iteration", not skips, fn=DRIVER, file=fn["file"], line=skips[0] if skips else hir.line(node),
+              what="an iteration can `continue` to the next depth before the depth-limit test: a search resumed at a cached depth above the "
+                   "limit then runs a full deeper iteration (`go depth 5`, then `go depth 2` searches depth 6)",
+              expected="no `continue` of the iteration loop before the limit test", found=skips)
     # L1c: the counter starts at 1 or exactly at the depth of the cached *exact* root entry - an iteration the table answers at no
     # cost, after which the limit test fires.  Starting any higher searches deeper than the limit before the test is reached.
     start = sym_start(it)
